@@ -300,6 +300,8 @@ pub fn gen(rng: &mut Rng, thorough: bool, sink: &mut Sink) {
   // (d) Eq / Ord / Hash over pairs
   let mut pool: Vec<String> = starts.iter().map(|s| s.to_string()).collect();
   pool.extend(["did:a:b/", "did:a:c", "did:b:b", "did:a:b/p?q", "did:a:b?q#f", "did:a:b/p#f", "did:a:b#g", "did:a:b?r"].iter().map(|s| s.to_string()));
+  // queries (paths, fragments) that differ as text but would agree after percent / form decoding: different values
+  pool.extend(["did:a:b?x=A", "did:a:b?x=%41", "did:a:b?a=b+c", "did:a:b?a=b%20c", "did:a:b?a", "did:a:b?a=", "did:a:b?a=1&b=2", "did:a:b?a=1&&b=2", "did:a:b/%41", "did:a:b/A", "did:a:b#%41", "did:a:b#A"].iter().map(|s| s.to_string()));
   pool.extend(valid_pool.iter().cloned().take(10));
   for a in &pool { for b in &pool { let mut c = vec![6]; put_bytes(&mut c, a.as_bytes()); put_bytes(&mut c, b.as_bytes()); sink.case(c, "cmp-pairs"); } }
 }
